@@ -298,14 +298,22 @@ def _run_search(cmd, suite, env, timeout=3000):
         m = re.match(r'# search cases=(\d+) violations=(\d+)', line)
         if m:
             cases = int(m.group(1))
+        elif line.startswith('# running cfg '):
+            pass
         elif line.startswith('# dist '):
             notes.append(line[7:])
         elif line.startswith('# '):
             notes.append(line[2:])
     if rc != 0 and not wit:
-        tail = [l for l in out.split('\n') if 'runtime error' in l or 'ERROR: AddressSanitizer' in l or l.startswith('SUMMARY')
+        running = [l for l in out.split('\n') if l.startswith('# running cfg ')]
+        if running and os.path.basename(cmd[0]).startswith('c15_codec') and cmd[1] == 'wrap':
+            # the configuration in flight when the process died, as a stand-alone replay
+            cmd = [cmd[0], 'cfg', running[-1].split(' ')[3], cmd[4], cmd[5]]
+        tail = [l for l in out.split('\n') if 'runtime error' in l or 'assertion failed' in l.lower() or 'Fatal (internal) error' in l or 'ERROR: AddressSanitizer' in l or l.startswith('SUMMARY')
                 or l.startswith('O ABORT') or l.startswith('O SIG') or re.match(r'\s+#[0-4] ', l)]
-        wit.append({'suite': suite, 'input': ' '.join(os.path.basename(c) if i == 0 else c for i, c in enumerate(cmd)),
+        wit.append({'suite': suite, 'input': ' '.join(('c15_codec' if os.path.basename(c).startswith('c15_codec') else
+                                                       'c15_kernels' if os.path.basename(c).startswith('c15_kernels') else
+                                                       os.path.basename(c)) if i == 0 else c for i, c in enumerate(cmd)),
                     'expected': 'kernels run without sanitizer report / abort',
                     'observed': '; '.join(t.strip() for t in tail[:6]) or ('exit code %d: %s' % (rc, out[-400:])),
                     'why': 'the implementation trapped (out-of-bounds access, undefined behaviour or assertion) during the search'})
@@ -330,6 +338,10 @@ def search(ctx):
         ('codec-wrapped', [_codec(ctx, 'plain'), 'wrap', s, '14' if q else '260', '2' if q else '4', '1' if q else '2']),
         ('codec-wrapped-sanitizer', [_codec(ctx, 'san'), 'wrap', str(ctx.seed + 1000), '5' if q else '50', '0', '1']),
     ]
+    if not q:
+        # upstream's own self-check: every SIMD kernel re-runs the C kernel and asserts equality (OPUS_CHECK_ASM +
+        # ENABLE_ASSERTIONS build); a fired assert aborts, and the configuration in flight becomes the witness
+        runs.append(('codec-checkasm', [_codec(ctx, 'checkasm'), 'wrap', str(ctx.seed + 2000), '120', '0', '1']))
     for suite, cmd in runs:
         w, c, n = _run_search(cmd, suite, env)
         wit += w; cases += c
@@ -345,7 +357,9 @@ def search(ctx):
                       'silk_inner_product_FLP/celt_pitch_xcorr within the a-priori bound; (c) OPUS_VERIF_ARCH_CAP unset,0..4: table '
                       'index actually used = min(cap, host), packets and final ranges identical between arch levels whose float '
                       'tables coincide, every decoder level decodes every encoder level to the encoder\'s final range, PCM '
-                      'identical between float-equivalent decoder levels; (d) the same under ASan+UBSan on live states'
+                      'identical between float-equivalent decoder levels; (d) the same under ASan+UBSan on live states; (e) thorough tier: the '
+                      'same whole-codec load on an OPUS_CHECK_ASM + ENABLE_ASSERTIONS build (upstream\'s in-kernel self-checks; a fired '
+                      'assert is a witness)'
                       % CAL['threshold_ppm'],
             'notes': notes[:60],
             'samples': samples,
@@ -398,7 +412,9 @@ def replay(ctx, obj):
                 break
     for c in cmds:
         t = c.split(' ')
-        exe = _codec(ctx, 'plain') if t[0] == 'c15_codec' else _k(ctx, 'san')
+        var = 'checkasm' if any(w.get('input') == c and w.get('suite') == 'codec-checkasm'
+                                for w in [obj] + obj.get('other_witnesses', [])) else 'plain'
+        exe = _codec(ctx, var) if t[0] == 'c15_codec' else _k(ctx, 'san')
         rc, out = common.sh([exe] + t[1:], env=env)
         v = [l for l in out.split('\n') if l.startswith('V ')]
         print('command: %s\n  %s' % (c, '\n  '.join(x[:500] for x in v[:5]) or 'no violation'))
